@@ -67,6 +67,9 @@ checks = {
  "C18": ("E2", E2,
    "Breadth-first search over all histories up to depth 4 (thorough 5) of 15 operations (AddInterceptor of one / two / a failing interceptor, RemoveInterceptor, ClearInterceptor, SetHTTPClient with another client, the same client again, a copy of the current client; Get, Post, SimpleAPI Get) applied to either of two SimpleHTTP instances that were built from ONE caller-owned interceptor slice with spare capacity; every history ends with a probe request on each instance. Per request the shared call log must equal the registered interceptors in order followed by exactly one transport call, cut at the first failing interceptor whose error is surfaced; header changes must reach the transport; a SimpleHTTP that has become its own underlying transport is reported as recursion. States are de-duplicated on the canonical private state of both objects plus the model lists.",
    "Bounded history depth; stub transports; one http.Client per instance; which stub transport is used after switching clients is not demanded.", "DESIGN.md §3, §5 C18"),
+ "C19": ("E3", E3,
+   "All record lists up to length 4 (thorough 5) over 6 (key, second key) symbols with unique tags, and all run-compositions of long two-key lists (21/22 elements into <=5/4 runs, 65/66/130 into <=3, 257 into <=2: merge path and size thresholds of the stable sort) x comparators {<, >, by second key, <=} x Sort, SortSlice, Stream.Sort, Stream.SortByIndex (comparator indexing the caller's slice), both stream families, SortOrdered/Ascending/Descending: permutation by tag, no inversion w.r.t. the comparator, stability for strict comparators. Descriptors: 13 key selections (1-3 keys; transformer- and field-name based; ComparableOrdered and ComparableString) x all direction vectors x all row lists up to length 3 (thorough 4) plus 300 long row lists x ToSortedList, SortedListBySortDescriptors (input untouched) and in-place Sort: permutation and lexicographic order by the key list.",
+   "Finite alphabets; ties of descriptor sorts unconstrained.", "DESIGN.md §4, §5 C19"),
 }
 
 not_yet = "check not built yet in this round (see DESIGN.md §9 build order); no claim made"
